@@ -33,7 +33,7 @@ ASSUMPTIONS = [
     "timeouts are compared with a relative tolerance of 1e-9 (float parsing)",
     "malformed strings are limited to ones no documented syntax admits (list in MALFORMED)",
 ]
-WATCHDOG_S = {"quick": 900, "thorough": 7200}
+WATCHDOG_S = {"quick": 2400, "thorough": 10800}
 
 MANIFEST = {
     "technique": "reference-model testing of layered configuration (generated layer stacks vs a precedence fold), generated CLI/toml/annotation strings through the real loaders, round-trip and rejection properties for structured option grammars",
